@@ -95,14 +95,16 @@ def regen_blk(ctx, h_thr):
             return
         open(GENBLK, "w").write(r.stdout)
     ctx.log("C02/GenBlk.v changed -> re-checking the proofs against the new constants")
-    ctx.proof_broken[:] = [b for b in ctx.proof_broken if "GenBlk" in b]
+    # whatever the first pass said was said about stale constants
+    ctx.proof_broken[:] = []
+    ctx.notes[:] = [n for n in ctx.notes if not n.startswith("coq make reported errors")]
     core.prepare_proofs(ctx)
 
 
 # ----------------------------------------------------------------------------------------------
 # tie (a): component level
 # ----------------------------------------------------------------------------------------------
-def run_blocks(cmd, data, timeout=600):
+def run_blocks(cmd, data, timeout=45):
     env = dict(os.environ, ASAN_OPTIONS="detect_leaks=0:abort_on_error=0")
     try:
         r = subprocess.run(cmd, input=data, stdout=subprocess.PIPE, stderr=subprocess.PIPE, env=env, timeout=timeout)
@@ -130,7 +132,7 @@ def component_cases(ctx):
         for q in ([1, 2, 3, 4, 5, 7, 11, 40] if quick else range(1, 41)):
             cases.append((gid, gen.case_line(bs, rnd.randint(1, 4), q, files)))
         gid += 1
-    nlists = 450 if quick else 6000
+    nlists = 600 if quick else 6000
     per = 4 if quick else 8
     for _ in range(nlists):
         bs = rnd.choice([4, 5, 8, 13, 16, 32])
@@ -157,14 +159,15 @@ def tie_component(ctx, bl, drv):
             ("threads+delay", [bl["h_thr"], "--delay", str(ctx.seed * 31 + 7)])]
     nsched = 0
     if bl["h_sched"]:
-        nsched = 6 if quick else 40
+        nsched = 24 if quick else 120
         for k in range(nsched):
             legs.append(("sched#%d" % k, [bl["h_sched"], "--sched", str(ctx.seed * 1000 + k + 1)]))
     if not quick:
         for k in range(4):
             legs.append(("threads+delay#%d" % k, [bl["h_thr"], "--delay", str(ctx.seed * 977 + k + 100)]))
+    leg_timeout = 20 if quick else 900
     with ThreadPoolExecutor(max_workers=8) as ex:
-        results = list(ex.map(lambda lg: run_blocks(lg[1], data), legs))
+        results = list(ex.map(lambda lg: run_blocks(lg[1], data, leg_timeout), legs))
     res = {legs[i][0]: results[i] for i in range(len(legs))}
     model = res["model"][1]
     if res["model"][0] != 0 or len(model) != len(lines):
@@ -194,7 +197,8 @@ def tie_component(ctx, bl, drv):
         for name, _ in legs[1:]:
             rc, blocks, err = res[name]
             for i in idxs:
-                got = blocks[i] if i < len(blocks) else "<no output: harness died rc=%d %s>" % (rc, err[-300:])
+                got = blocks[i] if i < len(blocks) else ("<no output: harness %s %s>" % (
+                    "hung (time-out)" if rc == 124 else "died rc=%d" % rc, err[-300:]))
                 if ref is None:
                     ref = (name, i, got)
                 elif got != ref[2]:
@@ -204,16 +208,19 @@ def tie_component(ctx, bl, drv):
                 continue
             break
     for g, ref, other in impl_disagree[:3]:
-        kind = "crash" if other[2].startswith("<no output") or ref[2].startswith("<no output") else "nondet"
+        kind = ("hang" if "hung (time-out)" in other[2] + ref[2] else "crash") if (
+            other[2].startswith("<no output") or ref[2].startswith("<no output")) else "nondet"
         ctx.violation("bp-%s:%s-vs-%s" % (kind, ref[0].split("#")[0], other[0].split("#")[0]),
                       "block processor output differs between two runs of the same file list: %s (case %d) vs %s (case %d)"
                       % (ref[0], ref[1], other[0], other[1]),
                       dict(kind="component", cases=[lines[ref[1]], lines[other[1]]], groups=[0, 0],
                            run_a=dict(leg=ref[0], output=ref[2][-3000:]), run_b=dict(leg=other[0], output=other[2][-3000:]),
                            legs={n: c for n, c in legs}))
+    died = False
     for name, _ in legs[1:]:
         rc, blocks, err = res[name]
-        if rc != 0 and not impl_disagree:
+        if rc != 0 and not impl_disagree and not died:
+            died = True
             ctx.violation("bp-harness-died:" + name.split("#")[0], "harness %s exited with %d: %s" % (name, rc, err[-600:]),
                           dict(kind="component", cases=lines[max(0, len(blocks) - 1):len(blocks) + 1], stderr=err[-3000:]))
     # (2) the tie: model = implementation
@@ -275,6 +282,7 @@ def tie_env(ctx, bl, drv):
 # search oracle (b): tool level
 # ----------------------------------------------------------------------------------------------
 BS = 4096
+TOOL_TIMEOUT = 10      # a packer run on these inputs takes 10..100 ms; a hang is a finding, not something to wait for
 
 
 def _blob(rnd, n, kind):
@@ -427,7 +435,7 @@ def run_tool(bl, build, spec, out, jobs=None, backlog=None, variant=None, delay=
     stdin = open(spec["stdin"], "rb") if spec.get("stdin") else subprocess.DEVNULL
     try:
         r = subprocess.run(cmd, stdin=stdin, stdout=subprocess.PIPE, stderr=subprocess.PIPE, env=env, cwd=cwd,
-                           preexec_fn=(lambda: os.umask(um)) if um is not None else None, timeout=300)
+                           preexec_fn=(lambda: os.umask(um)) if um is not None else None, timeout=TOOL_TIMEOUT)
         rc, err = r.returncode, r.stderr.decode("utf-8", "replace")
     except subprocess.TimeoutExpired:
         rc, err = 124, "[timeout]"
@@ -448,7 +456,7 @@ def run_tool(bl, build, spec, out, jobs=None, backlog=None, variant=None, delay=
     return dict(rc=rc, sha=sha, err=err[-800:], cmd=cmd, variant=variant["name"], jobs=jobs, backlog=backlog, delay=delay, build=build)
 
 
-def tool_sweep(ctx, bl, force_more=False):
+def tool_sweep(ctx, bl, force_more=False, short=False):
     quick = ctx.tier == "quick" and not force_more
     root = os.path.join(ctx.scratch, "tools2" if force_more else "tools")
     os.makedirs(root, exist_ok=True)
@@ -460,8 +468,10 @@ def tool_sweep(ctx, bl, force_more=False):
     else:
         seed = ctx.seed * 104729 + (0 if not force_more else 17)
         ninputs = 40 if quick else 200
+        if short:
+            ninputs = 3      # a concrete violation is already known: a look at the tools is enough
         idxs = list(range(ninputs))
-    ncfg = 6 if quick else 16
+    ncfg = 3 if short else (6 if quick else 16)
     JOBS = [1, 2, 3, 7, 16, 64]
     QS = [1, 2, 3, 5, 100]
     specs = []
@@ -491,27 +501,40 @@ def tool_sweep(ctx, bl, force_more=False):
         out = os.path.join(spec["dir"], "o%d.sqfs" % (id(t) & 0xffffff))
         return run_tool(bl, build, spec, out, **cfg)
 
-    with ThreadPoolExecutor(max_workers=6) as ex:
-        results = list(ex.map(go, tasks))
-    ctx.coverage["evaluations"] += len(results)
+    # in batches of 8 inputs; stop early once three differing runs are known (a hang costs TOOL_TIMEOUT each)
+    by_idx = {}
+    for t in tasks:
+        by_idx.setdefault(t[0]["idx"], []).append(t)
+    order = sorted(by_idx)
     per_input = {}
-    for (spec, _), r in zip(tasks, results):
-        per_input.setdefault(spec["idx"], (spec, []))[1].append(r)
-    stats = dict(inputs=len(per_input), runs=len(results), by_tool={}, by_comp={}, failed_runs=0,
-                 configs_per_input=ncfg + 1, total_input_bytes=0)
+    stats = dict(inputs=0, runs=0, by_tool={}, by_comp={}, failed_runs=0,
+                 configs_per_input=ncfg + 1, total_input_bytes=0, stopped_early=False)
     bad = []
-    for i, (spec, rs) in sorted(per_input.items()):
-        stats["by_tool"][spec["mode"]] = stats["by_tool"].get(spec["mode"], 0) + 1
-        stats["by_comp"][spec["comp"]] = stats["by_comp"].get(spec["comp"], 0) + 1
-        stats["total_input_bytes"] += spec["bytes"]
-        ref = rs[0]
-        if ref["rc"] != 0:
-            stats["failed_runs"] += 1
-            ctx.notes.append("reference run failed for input %d (%s): %s" % (i, spec["mode"], ref["err"][-200:]))
-            continue
-        for r in rs[1:]:
-            if r["rc"] != ref["rc"] or r["sha"] != ref["sha"]:
-                bad.append((spec, ref, r))
+    for k in range(0, len(order), 8):
+        batch = [t for i in order[k:k + 8] for t in by_idx[i]]
+        with ThreadPoolExecutor(max_workers=6) as ex:
+            results = list(ex.map(go, batch))
+        ctx.coverage["evaluations"] += len(results)
+        stats["runs"] += len(results)
+        for (spec, _), r in zip(batch, results):
+            per_input.setdefault(spec["idx"], (spec, []))[1].append(r)
+        for i in order[k:k + 8]:
+            spec, rs = per_input[i]
+            stats["inputs"] += 1
+            stats["by_tool"][spec["mode"]] = stats["by_tool"].get(spec["mode"], 0) + 1
+            stats["by_comp"][spec["comp"]] = stats["by_comp"].get(spec["comp"], 0) + 1
+            stats["total_input_bytes"] += spec["bytes"]
+            ref = rs[0]
+            if ref["rc"] != 0:
+                stats["failed_runs"] += 1
+                bad.append((spec, dict(ref, sha="<reference run must succeed>", rc=0), ref))
+                continue
+            for r in rs[1:]:
+                if r["rc"] != ref["rc"] or r["sha"] != ref["sha"]:
+                    bad.append((spec, ref, r))
+        if len(bad) >= 3 and k + 8 < len(order):
+            stats["stopped_early"] = True
+            break
     ctx.coverage["tool_sweep"] = stats
     ctx.coverage["distinct_nontrivial"] += sum(1 for i, (spec, rs) in per_input.items() if spec["bytes"] > 3 * BS)
     seen = set()
@@ -521,15 +544,25 @@ def tool_sweep(ctx, bl, force_more=False):
         if tools_seen.get(spec["tool"], 0) >= 2:
             continue
         tools_seen[spec["tool"]] = tools_seen.get(spec["tool"], 0) + 1
-        dims = minimise(bl, spec, ref, r)
-        sig = "image-nondet:%s:%s" % (spec["tool"], "+".join(dims) if dims else "unstable")
+        if r["rc"] != 0:
+            dims = []
+            sig = "tool-%s:%s" % ("hang" if r["rc"] == 124 else "failed", spec["tool"])
+        else:
+            dims = minimise(bl, spec, ref, r)
+            sig = "image-nondet:%s:%s" % (spec["tool"], "+".join(dims) if dims else "unstable")
         if sig in seen:
             continue
         seen.add(sig)
-        ctx.violation(sig, "%s image differs from the serial reference build for the same input (%s, %s): differing run "
-                      "-j %s -Q %s env=%s delay=%s; responsible: %s"
-                      % (spec["tool"], spec["mode"], spec["comp"], r["jobs"], r["backlog"], r["variant"], r["delay"],
-                         ", ".join(dims) if dims else "not reproducible with a single dimension (schedule dependent)"),
+        if r["rc"] != 0:
+            what = ("%s %s (rc=%d) where the serial reference build succeeds, same input (%s, %s): -j %s -Q %s env=%s delay=%s: %s"
+                    % (spec["tool"], "hangs (time-out %ds)" % TOOL_TIMEOUT if r["rc"] == 124 else "fails", r["rc"], spec["mode"],
+                       spec["comp"], r["jobs"], r["backlog"], r["variant"], r["delay"], r["err"][-200:]))
+        else:
+            what = ("%s image differs from the serial reference build for the same input (%s, %s): differing run "
+                    "-j %s -Q %s env=%s delay=%s; responsible: %s"
+                    % (spec["tool"], spec["mode"], spec["comp"], r["jobs"], r["backlog"], r["variant"], r["delay"],
+                       ", ".join(dims) if dims else "not reproducible with a single dimension (schedule dependent)"))
+        ctx.violation(sig, what,
                       dict(kind="tool", input_seed=seed, input_idx=spec["idx"], mode=spec["mode"], comp=spec["comp"],
                            reference=dict(cmd=ref["cmd"], sha256=ref["sha"], rc=ref["rc"]),
                            differing=dict(cmd=r["cmd"], sha256=r["sha"], rc=r["rc"], stderr=r["err"], env=r["variant"],
@@ -639,7 +672,7 @@ def run(ctx):
                           dict(kind="component", cases=[lines[i]], model=model[i][-3000:], impl=res[name][1][i][-3000:]), no_input=True)
         return
     tie_env(ctx, bl, drv)
-    bad = tool_sweep(ctx, bl)
+    bad = tool_sweep(ctx, bl, short=bool(impl_disagree))
     ctx.log("tool sweep: %s" % json.dumps(ctx.coverage.get("tool_sweep", {}))[:300])
     broken = bool(tie_bad) or bool(ctx.proof_broken)
     if broken and not bad and not impl_disagree and ctx.tier == "quick":
@@ -658,6 +691,12 @@ def run(ctx):
                       no_input=True)
     if ctx.tier == "thorough":
         tsan_run(ctx, bl)
+        # independent re-check of the compiled proofs
+        rc, out = core.sh(["timeout", "1500", "coqchk", "-silent", "-o", "-Q", ".", "SqfsV", "SqfsV.Properties_C02"], cwd=core.COQ)
+        ok = rc == 0 and "Axioms: <none>" in out
+        ctx.coverage["coqchk"] = "ok, Axioms: <none>" if ok else out[-600:]
+        if not ok:
+            ctx.proof_broken.append("coqchk of Properties_C02.vo: " + out[-800:])
 
 
 def setup():
